@@ -9,9 +9,10 @@ paths = {os.path.basename(os.path.dirname(p)): p for p in glob.glob(f"{root}/ref
 names = sorted(paths)
 if len(sys.argv) > 1: names = [n for n in names if n in sys.argv[1:]]
 expected = json.load(open(f"{root}/refactorings/EXPECTED.json"))
+openfa = json.load(open(f"{root}/refactorings/OPEN.json")) if os.path.exists(f"{root}/refactorings/OPEN.json") else {}
 def run(n):
     ev = f"/tmp/rc/{n}"; os.makedirs(ev, exist_ok=True)
-    p = subprocess.run([f"{root}/bin/mwcheck","-p","all","-patch",paths[n],"-evidence-dir",ev],capture_output=True,text=True)
+    p = subprocess.run([os.environ.get("MWCHECK", f"{root}/bin/mwcheck"),"-p","all","-patch",paths[n],"-evidence-dir",ev],capture_output=True,text=True)
     finds = [l.split(" pos=")[0].replace("finding: ","") for l in p.stdout.splitlines() if l.startswith("finding: ")]
     bad = [l for l in p.stdout.splitlines() if l.startswith("ALL ") and not l.endswith("rc=0")]
     return n, p.returncode, finds, bad
@@ -23,7 +24,9 @@ alarms = 0
 for n in names:
     f = [x for x in res[n]["findings"] if x not in expected.get(n, [])]
     if res[n]["rc"] not in (0, 1): print(n, "DID NOT LOAD rc", res[n]["rc"]); alarms += 1
+    elif f and n in openfa: print(n, "OPEN FALSE ALARM (documented limit)", f[:3])
     elif f: print(n, "FALSE ALARM", f[:3]); alarms += 1
+    elif n in openfa: print(n, "listed in OPEN.json but silent now: remove the entry"); alarms += 1
 json.dump(res, open(f"{root}/refactorings/RESULT.json","w"), indent=1, sort_keys=True)
-print(f"{len(names)} refactorings, {alarms} with unexpected reports")
+print(f"{len(names)} refactorings, {alarms} with unexpected reports, {len([n for n in names if n in openfa])} documented open false alarms")
 sys.exit(1 if alarms else 0)
